@@ -53,6 +53,8 @@ type OpEnv struct {
 	AddMoney func(a, b Money) Money
 	SubMoney func(a, b Money) Money
 	MulMoney func(a Money, n int) Money
+	AddCents func(a Money, n int) Money // same left type as AddMoney, another right type
+	SubCents func(a Money, n int) Money
 	EqMoney  func(a, b Money) bool
 	LtMoney  func(a, b Money) bool
 	AddInts  func(a, b []int) []int
@@ -102,6 +104,8 @@ func newOpEnv(r *runner.Rng) *OpEnv {
 	e.AddMoney = func(a, b Money) Money { add("AddMoney(%v,%v)", a, b); return Money{a.Cents + b.Cents, a.Cur} }
 	e.SubMoney = func(a, b Money) Money { add("SubMoney(%v,%v)", a, b); return Money{a.Cents - b.Cents, a.Cur} }
 	e.MulMoney = func(a Money, n int) Money { add("MulMoney(%v,%v)", a, n); return Money{a.Cents * n, a.Cur} }
+	e.AddCents = func(a Money, n int) Money { add("AddCents(%v,%v)", a, n); return Money{a.Cents + n, a.Cur} }
+	e.SubCents = func(a Money, n int) Money { add("SubCents(%v,%v)", a, n); return Money{a.Cents - n, a.Cur} }
 	e.EqMoney = func(a, b Money) bool { add("EqMoney(%v,%v)", a, b); return a.Cents == b.Cents }
 	e.LtMoney = func(a, b Money) bool { add("LtMoney(%v,%v)", a, b); return a.Cents < b.Cents }
 	e.AddInts = func(a, b []int) []int {
@@ -145,6 +149,8 @@ var c17Tables = []opTable{
 	{"+": {"MethAdd", "AddInts"}, "*": {"MulMoney"}, "==": {"EqAny"}},
 	{"+": {"AddStr"}, "!=": {"EqAny"}},
 	{"==": {"EqList", "EqMoney"}, "+": {"CatList", "AddMoney"}, "!=": {"EqList"}},
+	// one operator, one left type, two right types
+	{"+": {"AddMoney", "AddCents", "AddInts"}, "-": {"SubCents", "SubMoney"}, "*": {"MulMoney"}, "<": {"LtMoney"}},
 }
 
 // resolve returns the function the library must pick for op on (lt, rt), or "".
@@ -257,7 +263,7 @@ func (g *c17Gen) money(n int) *term.Term {
 				return t
 			}
 		case 3:
-			if t, ok := g.bin("*", g.money(n-2), g.int_(n/2)); ok {
+			if t, ok := g.bin(r.Pick([]string{"*", "*", "+", "-"}), g.money(n-2), g.int_(n/2)); ok {
 				return t
 			}
 		case 4:
